@@ -125,9 +125,23 @@ fn compare_sessions(mode: Mode, with: &[String], bad_index: usize, dump_names: &
         res.skipped_mode = true;
         return res;
     }
-    let kk = |prefix: &str| -> String {
+    // names the rejected command mentions: a known "declaration left behind" finding can only show
+    // at a later command that mentions one of them
+    let bad_names: Vec<String> = with[bad_index]
+        .split(|c: char| c == '(' || c == ')' || c.is_whitespace())
+        .filter(|t| !t.is_empty())
+        .map(|t| t.to_string())
+        .collect();
+    let mentions_bad_name = |text: &str| -> bool {
+        text.split(|c: char| c == '(' || c == ')' || c.is_whitespace()).any(|t| !t.is_empty() && bad_names.iter().any(|b| b == t))
+    };
+    // `decl_only`: the observed difference is a declaration-visibility difference (a name resolves or
+    // not / is already bound or not, or the known `no entry found for key` panic on a declared-but-
+    // tableless function), not a difference in database contents, rules or rulesets
+    let kk = |prefix: &str, decl_only: bool| -> String {
         match gen::known_key(sub) {
-            Some(k) => k.to_string(),
+            Some(k) if decl_only || k.starts_with("F9") => k.to_string(),
+            Some(_) => format!("{prefix}-other/{sub}"),
             None => format!("{prefix}/{sub}"),
         }
     };
@@ -151,7 +165,14 @@ fn compare_sessions(mode: Mode, with: &[String], bad_index: usize, dump_names: &
                 "[{}] panic at command {} `{}` after the ill-typed command `{}` ({}) [{}]: {}",
                 mode.name(), k, with[k], with[bad_index], bad_o, sub, a.outcomes[k].short()
             ),
-            key: kk("panic"),
+            // the listed consequences of a declared-but-tableless function: lib.rs:2700 / lib.rs:744
+            // (`no entry found for key`) and, under the term/proof encoding,
+            // proofs/proof_encoding_helpers.rs:305 (`Function .. has no recorded sort`)
+            key: kk(
+                "panic",
+                (a.outcomes[k].short().contains("no entry found for key") || a.outcomes[k].short().contains("has no recorded sort"))
+                    && mentions_bad_name(&with[k]),
+            ),
             input,
         });
         return res;
@@ -173,20 +194,32 @@ fn compare_sessions(mode: Mode, with: &[String], bad_index: usize, dump_names: &
                     "[{}] the rejected command `{}` ({}) [{}] changed a later command: `{}` gives {} but {} without it",
                     mode.name(), with[bad_index], res.bad_class, sub, without[i], a.outcomes[j].short(), b.outcomes[i].short()
                 ),
-                key: kk("effect"),
+                key: kk(
+                    "effect",
+                    mentions_bad_name(&without[i])
+                        && !(matches!(a.outcomes[j], Outcome::Ok(_)) && matches!(b.outcomes[i], Outcome::Ok(_)))
+                        && !matches!(a.outcomes[j], Outcome::Err("no-such-ruleset") | Outcome::Err("rule-exists"))
+                        && !matches!(b.outcomes[i], Outcome::Err("no-such-ruleset") | Outcome::Err("rule-exists")),
+                ),
                 input,
             });
             return res;
         }
     }
     if a.dump != b.dump {
-        let d = a.dump.iter().zip(b.dump.iter()).find(|(x, y)| x != y).map(|(x, y)| format!("{x} vs {y}")).unwrap_or_default();
+        let dd = a.dump.iter().zip(b.dump.iter()).find(|(x, y)| x != y);
+        // existence of a table for a name of the bad command (err vs ok) is declaration visibility;
+        // two different contents (ok vs ok) is a database effect
+        let decl_only = dd
+            .map(|(x, y)| mentions_bad_name(x.split(':').next().unwrap_or("")) && !(x.contains(": ok[") && y.contains(": ok[")))
+            .unwrap_or(false);
+        let d = dd.map(|(x, y)| format!("{x} vs {y}")).unwrap_or_default();
         res.violations.push(Violation {
             what: format!(
                 "[{}] the rejected command `{}` ({}) [{}] changed the final dump: {}",
                 mode.name(), with[bad_index], res.bad_class, sub, d
             ),
-            key: kk("effect"),
+            key: kk("effect", decl_only),
             input,
         });
     }
